@@ -19,7 +19,7 @@ LONG_JVM = ("-XX:ParallelGCThreads=4",)
 
 
 def observe(chk, module_rel, cfg_rel, batch: dict, *, libs=(), name="obs", workers=1, timeout=3600, jvm=FAST_JVM,
-            traces_key="traces"):
+            traces_key="traces", record=True):
     f = Path(chk.work) / (name + ".json")
     f.write_text(json.dumps(batch))
     lib = ":".join(str(SPECS / d) for d in libs)
@@ -40,6 +40,7 @@ def observe(chk, module_rel, cfg_rel, batch: dict, *, libs=(), name="obs", worke
     missing = [i for i in range(1, n + 1) if i not in out]
     if missing:
         raise Machinery("observer %s gave no verdict for traces %s (of %d)" % (module_rel, missing[:10], n))
-    chk.record_tlc(name, res, count=False)
+    if record:      # callers running observers in threads record afterwards, in a fixed order
+        chk.record_tlc(name, res, count=False)
     f.unlink(missing_ok=True)
     return out, res
